@@ -258,13 +258,69 @@ func c1Taint(c *Ctx, rule string) {
 	// reflected bytes: encodeReflected returns the reflect buffer / null literal
 	er := c.Method(CorePath, "jsonEncoder", "encodeReflected")
 	if c.Anchor(rule, "zapcore.jsonEncoder.encodeReflected", er != nil) {
-		for k, r := range Returns(er) {
-			rv := RetVals(r)
-			if IsNilConst(Strip(rv[1])) {
-				d := Desc(rv[0])
-				c.Check(d == "nullLiteralBytes" || d == "Bytes(enc.reflectBuf)", rule, er.String(), "reflected-bytes#"+itoa(k+1), r.Pos(), "reflected values are the JSON encoder's own output or the null literal (%s)", d)
+		// by path exploration: a successful return hands out the null literal or the bytes of the encoder's own
+		// reflect buffer (the one held in, or just stored into, enc.reflectBuf on this path)
+		rn := er.Params[0].Name()
+		resolve := func(st *ConcState, v ssa.Value) ssa.Value {
+			for k := 0; k < 16 && v != nil; k++ {
+				if ct, ok := v.(*ssa.ChangeType); ok {
+					v = ct.X
+					continue
+				}
+				nx := st.Step(v)
+				if nx == nil {
+					break
+				}
+				v = nx
+			}
+			return v
+		}
+		seqs, trunc := ConcPaths(er, ConcCfg{
+			Event: func(in ssa.Instruction, st *ConcState) string {
+				if stv, ok := in.(*ssa.Store); ok {
+					if fa, ok := stv.Addr.(*ssa.FieldAddr); ok && fieldName(fa.X.Type(), fa.Field) == "reflectBuf" && st.Desc(fa.X) == rn {
+						return "held:" + vkey(resolve(st, stv.Val))
+					}
+					return ""
+				}
+				r, ok := in.(*ssa.Return)
+				if !ok || len(r.Results) != 2 {
+					return ""
+				}
+				if n, known := st.IsNil(r.Results[1]); !known || !n {
+					return "ret-err"
+				}
+				v := resolve(st, r.Results[0])
+				if st.Desc(r.Results[0]) == "nullLiteralBytes" || Desc(v) == "nullLiteralBytes" {
+					return "ret(null)"
+				}
+				if cl, ok := v.(*ssa.Call); ok && IsCallTo(cl, "(*go.uber.org/zap/buffer.Buffer).Bytes") {
+					b := Args(cl)[0]
+					if st.Desc(b) == rn+".reflectBuf" {
+						return "ret(reflect-buffer)"
+					}
+					return "ret(bytes-of:" + vkey(resolve(st, b)) + ")"
+				}
+				return "ret(?" + st.Desc(r.Results[0]) + ")"
+			},
+		})
+		var bad []string
+		for _, sq := range seqs {
+			toks := strings.Split(sq, " ; ")
+			last := toks[len(toks)-1]
+			ok := last == "ret-err" || last == "ret(null)" || last == "ret(reflect-buffer)"
+			if strings.HasPrefix(last, "ret(bytes-of:") {
+				// the buffer stored into enc.reflectBuf earlier on this path
+				want := "held:" + strings.TrimSuffix(strings.TrimPrefix(last, "ret(bytes-of:"), ")")
+				for _, t := range toks {
+					ok = ok || t == want
+				}
+			}
+			if !ok {
+				bad = append(bad, sq)
 			}
 		}
+		c.Check(!trunc && len(seqs) >= 2 && len(bad) == 0, rule, er.String(), "reflected-bytes", er.Pos(), "on every path reflected values are the JSON encoder's own output (the bytes of its reflect buffer) or the null literal: %v", bad)
 		g := c.GlobalAccesses(CorePath, "nullLiteralBytes")
 		writes := 0
 		for _, a := range g {
@@ -1178,16 +1234,36 @@ func c1Separators(c *Ctx, rule string) {
 		}
 		c.Check(ok, rule, sep.String(), "no-separator-byte-set", sep.Pos(), "evaluated over all 256 last-byte values: no separator after %q (must contain %q, may only add ' '); every other byte gets ',' (plus ' ' when spaced)", string(noSep), must)
 		// empty buffer: no separator
-		okEmpty := false
-		for _, r := range Returns(sep) {
-			for _, a := range AtomStrings(Guards(r)) {
-				switch a {
-				case "(Len(enc.buf) - 1) < 0", "Len(enc.buf) == 0", "len(Bytes(enc.buf)) == 0", "Len(enc.buf) < 1":
-					okEmpty = true
+		// by path exploration with the buffer's length fixed to 0: nothing is written and no byte is looked at
+		srn := sep.Params[0].Name()
+		eseqs, etrunc := ConcPaths(sep, ConcCfg{
+			Conc: func(d string) (int64, bool) {
+				if d == "Len("+srn+".buf)" || d == "len(Bytes("+srn+".buf))" {
+					return 0, true
 				}
+				return 0, false
+			},
+			Event: func(in ssa.Instruction, st *ConcState) string {
+				switch x := in.(type) {
+				case *ssa.Call:
+					if f := CalleeFunc(x); f != nil && f.Pkg() != nil && f.Pkg().Path() == "go.uber.org/zap/buffer" && isMutatingBufMethod(f.Name()) {
+						return "write"
+					}
+				case *ssa.IndexAddr:
+					if cl, ok := Strip(x.X).(*ssa.Call); ok && IsCallTo(cl, "(*go.uber.org/zap/buffer.Buffer).Bytes") {
+						return "reads-byte"
+					}
+				}
+				return ""
+			},
+		})
+		okEmpty := !etrunc && len(eseqs) > 0
+		for _, sq := range eseqs {
+			if sq != "" {
+				okEmpty = false
 			}
 		}
-		c.Check(okEmpty, rule, sep.String(), "empty-buffer", sep.Pos(), "an empty buffer gets no separator")
+		c.Check(okEmpty, rule, sep.String(), "empty-buffer", sep.Pos(), "an empty buffer gets no separator and no byte of it is read (paths with the length fixed to 0: %v)", eseqs)
 	}
 	// addKey order, explored for spaced on/off with helpers inlined: constant writes are expanded to their bytes
 	rcv := addKey.Params[0].Name()
